@@ -101,7 +101,20 @@ func genLDOpts(t *rapid.T, n int) m.LDOpts {
 		}
 		o.NodeOrder = rapid.Permutation(idx).Draw(t, "order")
 	}
+	// scale: a document padded with white space beyond the sizes at which buffers, chunking or "large input" paths start
+	if rapid.IntRange(0, 11).Draw(t, "padded") == 0 {
+		o.PadBytes = rapid.SampledFrom([]int{70_000, 300_000, 600_000, 1_200_000}).Draw(t, "padBytes")
+	}
 	return o
+}
+
+// genScale gives the graph filler nodes (hundreds of inert nodes, optionally blank ones) in one case out of `one in`.
+func genScale(t *rapid.T, g *m.Graph, oneIn int) {
+	if rapid.IntRange(0, oneIn-1).Draw(t, "bulk") != 0 {
+		return
+	}
+	g.Bulk = rapid.SampledFrom([]int{130, 300, 600, 1100}).Draw(t, "bulkNodes")
+	g.BulkBlank = rapid.Bool().Draw(t, "bulkBlank")
 }
 
 var nonJSONTexts = []string{
